@@ -131,6 +131,63 @@ func RunOpAPISpare(r OpReq) Outcome {
 	return runOpOn(r, full[:len(ins)])
 }
 
+// RunOpOnEditedNode initialises a first operator instance from a NodeProto object holding
+// the attributes of `prev`, applies it (outcome ignored), then the owner of the node edits it
+// in place - its attribute list is replaced by the request's - and a FRESH operator instance
+// is initialised from the same node object and applied to the request's inputs. What an
+// operator reads at Init is what the node says at that moment.
+func RunOpOnEditedNode(prev, r OpReq) Outcome {
+	node := &onnx.NodeProto{OpType: r.Op, Name: "n0", Attribute: append([]*onnx.AttributeProto{}, prev.Attrs...), Output: prev.outNames()}
+	for i := range prev.Inputs {
+		if prev.Inputs[i] == nil {
+			node.Input = append(node.Input, "")
+		} else {
+			node.Input = append(node.Input, fmt.Sprintf("i%d", i))
+		}
+	}
+	_ = Capture(nil, func() ([]tensor.Tensor, error) {
+		op, err := opset13.GetOperator(r.Op)
+		if err != nil {
+			return nil, err
+		}
+		if err := op.Init(node); err != nil {
+			return nil, err
+		}
+		vin, err := op.ValidateInputs(ToTensors(prev.Inputs))
+		if err != nil {
+			return nil, err
+		}
+		return op.Apply(vin)
+	})
+	node.Attribute = append(node.Attribute[:0], r.Attrs...)
+	node.Input, node.Output = nil, r.outNames()
+	for i := range r.Inputs {
+		if r.Inputs[i] == nil {
+			node.Input = append(node.Input, "")
+		} else {
+			node.Input = append(node.Input, fmt.Sprintf("i%d", i))
+		}
+	}
+	phase := "lookup"
+	return Capture(&phase, func() ([]tensor.Tensor, error) {
+		op, err := opset13.GetOperator(r.Op)
+		if err != nil {
+			return nil, err
+		}
+		phase = "init"
+		if err := op.Init(node); err != nil {
+			return nil, err
+		}
+		phase = "validate"
+		vin, err := op.ValidateInputs(ToTensors(r.Inputs))
+		if err != nil {
+			return nil, err
+		}
+		phase = "apply"
+		return op.Apply(vin)
+	})
+}
+
 // RunOpAPIClones executes the request twice (a fresh operator each) on operands that are
 // Clone()s of the caller's tensors - as a caller does that keeps its originals. A clone
 // differs from a tensor built with tensor.New in hidden ways (its shape and stride slices
@@ -280,7 +337,7 @@ func RunOpReused(r OpReq, warm [][]*ref.T, warmFirst bool) (last Outcome, first 
 // The outcome of the second call is returned: what an operator computes may
 // depend on the current contents of its operands only, not on which objects
 // they are or what they held before.
-func RunOpUpdatedInPlace(r OpReq) (Outcome, bool, string) {
+func RunOpUpdatedInPlace(r OpReq, reshaped bool) (Outcome, bool, string) {
 	stale := ""
 	ins := make([]tensor.Tensor, len(r.Inputs))
 	touched := false
@@ -319,6 +376,23 @@ func RunOpUpdatedInPlace(r OpReq) (Outcome, bool, string) {
 			return nil, err
 		}
 		orig := append([]tensor.Tensor{}, ins...)
+		// with `reshaped`, the first call sees operand 0 under another shape of the same rank (its
+		// extents in reverse order); the owner reshapes the object back in place before the second
+		var back []int
+		if reshaped && r.Inputs[0] != nil && len(r.Inputs[0].Shape) >= 2 && orig[0] != nil {
+			sh := r.Inputs[0].Shape
+			rev := make([]int, len(sh))
+			same := true
+			for i := range sh {
+				rev[i] = sh[len(sh)-1-i]
+				if rev[i] != sh[i] {
+					same = false
+				}
+			}
+			if !same && orig[0].Reshape(rev...) == nil {
+				back = append([]int{}, sh...)
+			}
+		}
 		firstCall := Capture(nil, func() ([]tensor.Tensor, error) {
 			vin, err := op.ValidateInputs(ins)
 			if err != nil {
@@ -345,6 +419,11 @@ func RunOpUpdatedInPlace(r OpReq) (Outcome, bool, string) {
 				}
 			}
 		}()
+		if back != nil {
+			if err := orig[0].Reshape(back...); err != nil {
+				return nil, fmt.Errorf("harness: cannot reshape operand 0 back in place: %v", err)
+			}
+		}
 		// the caller overwrites the contents of ITS tensors (the objects it created) and
 		// passes the very same list again
 		for i, in := range r.Inputs {
@@ -524,17 +603,18 @@ func RunOpsSharedModel(reqs []OpReq, isInit func(*ref.T) bool, raw bool, runs in
 
 // ModelOpts selects how a single-node model is laid out.
 type ModelOpts struct {
-	InitMask  uint64 // bit i set: input i is an initializer instead of a graph input
-	RawInits  bool   // initializers use raw_data
-	Truncate  bool   // drop trailing absent inputs instead of naming them ""
-	DynamicIn bool   // declare graph inputs with symbolic dimensions
-	IR        int64  // ir_version of the model (0 = the usual one, < 0 = absent)
-	NoNames   bool   // the node carries no name
+	InitMask     uint64 // bit i set: input i is an initializer instead of a graph input
+	RawInits     bool   // initializers use raw_data
+	Truncate     bool   // drop trailing absent inputs instead of naming them ""
+	DynamicIn    bool   // declare graph inputs with symbolic dimensions
+	IR           int64  // ir_version of the model (0 = the usual one, < 0 = absent)
+	NoNames      bool   // the node carries no name
+	SpellDomains bool   // the node carries its domain explicitly
 }
 
 // BuildOpModel renders the request as a single-node model.
 func BuildOpModel(r OpReq, mo ModelOpts) (*Graph, map[string]*ref.T) {
-	g := &Graph{IR: mo.IR, NoNames: mo.NoNames}
+	g := &Graph{IR: mo.IR, NoNames: mo.NoNames, SpellDomains: mo.SpellDomains}
 	feed := map[string]*ref.T{}
 	node := GNode{Op: r.Op, Attrs: r.Attrs, Outputs: r.outNames()}
 	names := map[*ref.T]string{} // one operand object at several positions = one graph value read twice
